@@ -56,12 +56,12 @@ def _send(client, iid, req, case=None):
     if kind == "save":
         return client.get("/save-state")
     if kind == "begin":
-        return _begin(client, iid, case, req[1])
+        return _begin(client, iid, case, req[1], req[2] if len(req) > 2 else None)
     raise ValueError(kind)
 
 
-def _begin(client, iid, case, bs):
-    body = {"scenario_managers": [SM, SM2] if case.get("two") else [SM], "scenarios": [SC], "equations": case["equations"]}
+def _begin(client, iid, case, bs, eqs=None):
+    body = {"scenario_managers": [SM, SM2] if case.get("two") else [SM], "scenarios": [SC], "equations": eqs or case["equations"]}
     sb = c19.settings_body(*(bs or [None, None]))
     if sb is not None and sb["settings"]:
         body["settings"] = sb["settings"]
@@ -288,7 +288,8 @@ def history_strategy(max_n):
     bset = st.one_of(st.none(), st.none(), st.tuples(setting, setting).map(list))
     step = st.tuples(setting, setting).map(lambda x: ["step", x[0], x[1]])
     req = st.one_of(step, step, step, st.tuples(st.integers(1, 3), setting, setting).map(lambda x: ["steps", x[0], x[1], x[2]]),
-                    st.just(["save"]), bset.map(lambda b_: ["begin", b_]))
+                    st.just(["save"]),
+                    st.tuples(bset, st.sampled_from([["s"], ["s", "f"], ["k", "c", "s"], ["f", "c"]])).map(lambda x: ["begin", x[0], x[1]]))
 
     @st.composite
     def build(draw):
